@@ -85,3 +85,8 @@ claim("C14", "DESIGN.md 5 C14",
       "Payloader side: every sequence of 1-3 (thorough 4) HEVC NAL units (8 types, 3 layer/TID pairs, sizes around the MTU, start-code length) x 8 MTUs x SkipAggregation x AddDONL is packetized by the real H265Payloader; every payload is parsed by H265Packet AND by an independent RFC 7798 parser (which must agree on the structure), DONL/DOND placement, AP header (type 48, minimum layer id and TID), FU shape (>= 2 FUs, S first only, E last only, FuType, F/layer/TID), IsPartitionHead and the MTU are checked, and the units are reassembled and compared with the input. Parser side: single / AP (2-3 units) / FU (start, middle, end) / PACI (every PHSsize 0-31 x F0-F2,Y x A x cType) payloads from the reference encoder, with and without DONL, with EVERY truncation (rejected unless the prefix is itself well-formed) and all accessors compared. Complete domains: all 2^16 payload headers, 2^8 FU headers, 2^16 PACI field words and ALL 2^24 TSCI triples.",
       "F = 0 only; DON values are not demanded. One listed known finding (DONL in every FU, pinned by a test) matched by an exact defect model.",
       "bounded exhaustive enumeration against an independent RFC 7798 encoder/parser; complete enumeration of the bit-field domains (explicit choice-tree DFS on the real code)")
+
+claim("C15", "DESIGN.md 5 C15",
+      "Fault enumeration on histories: for every frame-A shape (12 H264 shapes mixing single / STAP-A / FU-A trains, 8 AV1 OBU sequences fragmented by the real payloader into Z/Y chains; up to 10 packets) ALL 2^n loss subsets are delivered in order to one depacketizer, preceded by every sequence of 0-2 strings of an 8-string garbage corpus, followed by an intact frame B (5 H264 / 4 AV1 shapes covering every form of first packet); the output of every packet of B must equal that of a fresh depacketizer, byte for byte. H264 in Annex-B and AVC mode.",
+      "Frame shapes and the garbage corpus are fixed lists (stated in the evidence); reordering and duplication are outside the bound.",
+      "exhaustive enumeration of loss subsets and garbage prefixes with a fresh-twin differential oracle (explicit choice-tree DFS on the real code)")
